@@ -5,7 +5,7 @@
 From JV Require Import Bytes Tables Utf8 Scalar Date TextTok BinPrim BufWin BinLexer BinReader SerdeShape
   TextDeCommon BinDeCommon TextDeSpec TextDeTape TextDeStream BinDeOndemand BinDeReader BinDeTape LogicDoc.
 From JV Require TextDoc BinDoc.
-From JV.proofs Require Import C10LinkProofs C10SpecProofs BinDocProofs BinDeSpecProofs TextDeTapeProofs TextDeStreamProofs TextParseProofs.
+From JV.proofs Require Import C10LinkProofs C10SpecProofs C10FitsProofs BinDocProofs BinDeSpecProofs TextDeTapeProofs TextDeStreamProofs TextParseProofs.
 From Coq Require Import NArith ZArith Lia List Bool.
 Import ListNotations.
 Open Scope N_scope.
@@ -244,5 +244,37 @@ Section Compose.
     destruct (text_bin_agree sh d e cap sched Hw Hn Hs He Hfit Hnf Hcap) as (H1 & _ & H3 & H4 & H5).
     exists (TextDoc.flatten (to_text d)). split; [apply parse_render; assumption|].
     fold b in H3, H4, H5. rewrite H1, H3, H4, H5. auto.
+  Qed.
+
+  (* [shared] implies [fits] (C10FitsProofs): the same two theorems without that hypothesis *)
+  Theorem text_bin_agree_shared sh d e cap sched :
+    wf_ldoc d = true -> norgb_fields d = true ->
+    shared decode pf cfg sh d -> enc_ok decode cfg e d ->
+    no_fail sched = true -> BinLexer.fits cap (BinDoc.enc_doc (fst (to_bin e d)) (snd (to_bin e d))) = true ->
+    let v := TextDeSpec.spec_value decode pf F sh (to_text d) in
+    let b := BinDoc.enc_doc (fst (to_bin e d)) (snd (to_bin e d)) in
+    v <> Err EC_UNFIT /\
+    TextDeTape.deser_tape decode pf F sh (TextDoc.flatten (to_text d)) = v /\
+    TextDeStream.deser_stream decode pf F sh (tokens (to_text d)) = v /\
+    BinDeTape.deser_tape cfg sh b = v /\
+    BinDeOndemand.deser_ondemand cfg sh b = v /\
+    BinDeReader.deser_reader cfg cap sched sh b = v.
+  Proof.
+    intros Hw Hn Hs He Hnf Hcap v b. pose proof (shared_fits decode pf cfg sh d Hs) as Hfit.
+    split; [exact Hfit|]. exact (text_bin_agree sh d e cap sched Hw Hn Hs He Hfit Hnf Hcap).
+  Qed.
+
+  Theorem text_bytes_bin_agree_shared sh d e l cap sched :
+    wf_ldoc d = true -> norgb_fields d = true ->
+    shared decode pf cfg sh d -> enc_ok decode cfg e d ->
+    TextDoc.wf_doc (to_text d) -> TextDoc.wf_layout (to_text d) l ->
+    no_fail sched = true -> BinLexer.fits cap (BinDoc.enc_doc (fst (to_bin e d)) (snd (to_bin e d))) = true ->
+    let b := BinDoc.enc_doc (fst (to_bin e d)) (snd (to_bin e d)) in
+    exists t, TextTape.parse (TextDoc.render (to_text d) l) = Ok (t, TextDoc.bom l) /\
+      TextDeTape.deser_tape decode pf F sh t = BinDeTape.deser_tape cfg sh b /\
+      TextDeTape.deser_tape decode pf F sh t = BinDeOndemand.deser_ondemand cfg sh b /\
+      TextDeTape.deser_tape decode pf F sh t = BinDeReader.deser_reader cfg cap sched sh b.
+  Proof.
+    intros Hw Hn Hs He Hwt Hl Hnf Hcap. apply text_bytes_bin_agree; try assumption. apply shared_fits, Hs.
   Qed.
 End Compose.
